@@ -9,6 +9,7 @@ import common as C
 import fuzzylite as fl
 import gen_engine as G
 from props import c01
+from streams import engine_io as S_IO
 
 PID = "C02"
 MODULES = ["FlVerif.Props.C02"]
@@ -115,10 +116,12 @@ def same_obs(a, b, tol=1e-12):
 
 
 def key(case):
-    return "batch"
+    return case.get("stream") or "batch"
 
 
 def oracle(case):
+    if case.get("stream"):
+        return S_IO.oracle(case)       # accessors of Engine (look-ups, input_values / output_values / values)
     desc, rows = case["engine"], case["rows"]
     if case.get("first"):
         # two successive calls: the second batch continues from the state the first one left
@@ -212,6 +215,8 @@ def correspond(ctx):
                 st.skipped_fragile += 1
             else:
                 mism.append({"case": case, "impl": a["values"], "model": str(m[1])[:300], "what": bad})
+    # the accessors of Engine against Op/EngineIO.lean, Op/InputValues.lean (models of the code ties C02.code_*)
+    mism += S_IO.run(ctx)
     return mism
 
 
